@@ -42,6 +42,16 @@ pub assume_specification[ i16::abs ](x: i16) -> (r: i16)
         r == (if x < 0 { (-x) as i16 } else { x }),
 ;
 
+pub assume_specification[ i16::unsigned_abs ](x: i16) -> (r: u16)
+    ensures
+        r as int == (if x < 0 { -(x as int) } else { x as int }),
+;
+
+pub assume_specification[ i16::signum ](x: i16) -> (r: i16)
+    ensures
+        r == (if x < 0 { -1i16 } else if x == 0 { 0i16 } else { 1i16 }),
+;
+
 pub assume_specification[ i16::is_positive ](x: i16) -> (r: bool)
     ensures
         r == (x > 0),
@@ -2729,6 +2739,8 @@ pub open spec fn deq<T>(s: Seq<Node<T>>, head: Option<NodeId>, tail: Option<Node
     &&& run_ok(s, d, by_next)
 }
 
+#[verifier::spinoff_prover]
+#[verifier::rlimit(200)]
 pub proof fn lemma_walk<T>(s: Seq<Node<T>>, w: Ranks, id: NodeId, by_next: bool)
     // @props C09 C10
     requires
@@ -2799,6 +2811,8 @@ pub proof fn lemma_walk<T>(s: Seq<Node<T>>, w: Ranks, id: NodeId, by_next: bool)
 }
 
 /// popping either end of the ghost deque
+#[verifier::spinoff_prover]
+#[verifier::rlimit(200)]
 pub proof fn lemma_deq_pop<T>(s: Seq<Node<T>>, d: Seq<NodeId>, by_next: bool)
     // @props C10
     requires
@@ -2844,6 +2858,8 @@ pub proof fn lemma_deq_pop<T>(s: Seq<Node<T>>, d: Seq<NodeId>, by_next: bool)
     }
 }
 
+#[verifier::spinoff_prover]
+#[verifier::rlimit(200)]
 pub proof fn lemma_walk_indep<T>(s: Seq<Node<T>>, w1: Ranks, w2: Ranks, id: NodeId, by_next: bool)
     // @props C09
     requires
@@ -3852,6 +3868,8 @@ pub open spec fn run_ok2<T>(s: Seq<Node<T>>, d: Seq<NodeId>, by_next: bool) -> b
 
 /// established once at the start of `next` / `next_back` of the double-ended iterators: what popping either
 /// end of any run does (triggered by the run itself, i.e. by the deque of the postcondition)
+#[verifier::spinoff_prover]
+#[verifier::rlimit(200)]
 pub proof fn lemma_deq_all<T>(s: Seq<Node<T>>, by_next: bool)
     // @props C10
     ensures
